@@ -812,7 +812,23 @@ C0_XML = """<mujoco><worldbody>
 </worldbody>
 <tendon><fixed name="t0"><joint joint="j0" coef="1.5"/><joint joint="j1" coef="-.5"/></fixed></tendon>
 <actuator><position joint="j0" kp="3" dampratio=".8"/><motor tendon="t0" gear="2"/></actuator></mujoco>"""
-C0_MODES = {"fixed": ("fixed", "fixed"), "tracking": ("trackcom", "targetbody")}
+C0_MODES = {"fixed": ("fixed", "fixed"), "tracking": ("trackcom", "targetbody"), "multi": ("fixed", "fixed")}
+# loop-carried scratch state: 3 tendons / 3 actuators whose supports are NOT nested (an earlier row touches dofs outside a later one's support)
+C0_XML_MULTI = """<mujoco><worldbody>
+<body name="a" pos=".1 .2 .3"><joint name="j0" type="hinge" axis="0 1 0" armature=".1"/><geom size=".1" pos=".2 0 0"/>
+  <camera name="c0" pos=".3 0 .2" mode="{cmode}"/><light name="l0" pos="0 0 1" dir="0 .6 -.8" mode="{lmode}"/>
+  <body name="b" pos=".4 0 0"><joint name="j1" type="hinge" axis="1 0 0"/><geom size=".1" pos="0 .2 0"/>
+    <body name="c" pos="0 .3 0"><joint name="j2" type="hinge" axis="0 0 1"/><geom size=".08" pos=".15 0 0"/></body></body>
+  <body name="e" pos="0 0 .3"><joint name="j3" type="slide" axis="0 1 0"/><geom size=".07" pos="0 0 .1"/></body></body>
+</worldbody>
+<tendon><fixed name="t0"><joint joint="j0" coef="1.5"/><joint joint="j1" coef="-.5"/></fixed><fixed name="t1"><joint joint="j2" coef="2"/></fixed>
+<fixed name="t2"><joint joint="j1" coef=".7"/></fixed></tendon>
+<actuator><motor tendon="t0" gear="2"/><motor joint="j2" gear="1.5"/><position joint="j1" kp="3" dampratio=".8"/></actuator></mujoco>"""
+
+
+def _c0_xml(modes):
+  return (C0_XML_MULTI if modes == "multi" else C0_XML).format(cmode=C0_MODES[modes][0], lmode=C0_MODES[modes][1])
+
 C0_SYM_M = {"qpos0", "body_mass", "dof_armature", "cam_pos0", "cam_poscom0", "cam_mat0", "light_pos0", "light_poscom0", "light_dir0", "tendon_length0", "actuator_acc0", "actuator_biasprm", "dof_invweight0",
             "body_invweight0", "tendon_invweight0", "stat.meaninertia", "body_subtreemass", "tendon_lengthspring", "eq_data"}
 C0_BATCH2 = ["qpos0", "body_mass", "cam_pos0", "cam_poscom0", "cam_mat0", "light_pos0", "light_poscom0", "light_dir0", "actuator_acc0", "body_subtreemass"]
@@ -825,10 +841,10 @@ def _c0_build(modes, nworld=2):
 
   import mujoco_warp as mjw
 
-  mjm = mujoco.MjModel.from_xml_string(C0_XML.format(cmode=C0_MODES[modes][0], lmode=C0_MODES[modes][1]))
+  mjm = mujoco.MjModel.from_xml_string(_c0_xml(modes))
   m = mjw.put_model(mjm)
   d = mjw.make_data(mjm, nworld=nworld)
-  qp = np.tile(mjm.qpos0, (nworld, 1)) + np.array([[0.3, -0.1], [-0.2, 0.15]])[:nworld]
+  qp = np.tile(mjm.qpos0, (nworld, 1)) + np.array([[0.3, -0.1, 0.2, 0.05], [-0.2, 0.15, -0.25, -0.1]])[:nworld, : mjm.nq]
   d.qpos.assign(qp.astype(np.float32))
   for f in C0_BATCH2:
     a = getattr(m, f).numpy()
@@ -907,11 +923,11 @@ def replay_const0(modes, fn_name, restore):
     getattr(mjw, fn_name)(m, d, restore) if fn_name != "set_const_fixed" else mjw.set_const_fixed(m, d)
     bad = []
     for w in range(nworld):
-      mj2 = mujoco.MjModel.from_xml_string(C0_XML.format(cmode=C0_MODES[modes][0], lmode=C0_MODES[modes][1]))
+      mj2 = mujoco.MjModel.from_xml_string(_c0_xml(modes))
       mj2.body_mass[:] = mass[w]
       mj2.qpos0[:] = q0[w]
       mujoco.mj_setConst(mj2, mujoco.MjData(mj2))
-      fields = ["tendon_length0", "cam_pos0", "cam_poscom0", "cam_mat0", "light_pos0", "light_poscom0", "light_dir0", "actuator_acc0"] + (["body_subtreemass"] if fn_name == "set_const" else [])
+      fields = ["tendon_length0", "cam_pos0", "cam_poscom0", "cam_mat0", "light_pos0", "light_poscom0", "light_dir0", "actuator_acc0", "tendon_invweight0", "dof_invweight0", "body_invweight0"] + (["body_subtreemass"] if fn_name == "set_const" else [])
       for f in fields:
         a = getattr(m, f).numpy()
         if w >= a.shape[0]:
@@ -925,7 +941,7 @@ def replay_const0(modes, fn_name, restore):
     for n in names:
       if not np.allclose(before[n], after[n], rtol=1e-5, atol=1e-6):
         bad.append(dict(field="Data." + n, before=before[n], after=after[n]))
-    return bool(bad), _save(f"const0.{modes}.{fn_name}.{int(restore)}", {"model_xml": C0_XML.format(cmode=C0_MODES[modes][0], lmode=C0_MODES[modes][1]), "body_mass": mass, "qpos0": q0, "mismatches": bad[:12],
+    return bool(bad), _save(f"const0.{modes}.{fn_name}.{int(restore)}", {"model_xml": _c0_xml(modes), "body_mass": mass, "qpos0": q0, "mismatches": bad[:12],
                                                                          "how": f"mjw.{fn_name}(m, d, restore={restore}) with per-world body_mass / qpos0 vs mujoco.mj_setConst per world; Data before / after"})
 
   return _rp
@@ -943,7 +959,7 @@ def unit_host_const0(modes, fn_name, restore):
     nworld, nv, nu, nt = 2, int(mjm.nv), int(mjm.nu), int(mjm.ntendon)
     fn = getattr(SC, fn_name)
     ctx.encode(fn, SC.set_const_0, SC.set_const_fixed, SC.set_const_spring)
-    ctx.bound(model=f"2-dof chain, cameras ({C0_MODES[modes][0]}, fixed), lights ({C0_MODES[modes][1]}, fixed), fixed tendon, dampratio position actuator + tendon motor", nworld=nworld, restore=restore,
+    ctx.bound(model=("branched 4-dof tree (3-hinge chain + slide sibling), 3 fixed tendons with non-nested supports {j0,j1},{j2},{j1}, 3 actuators with supports {j0,j1},{j2},{j1}" if modes == "multi" else f"2-dof chain, cameras ({C0_MODES[modes][0]}, fixed), lights ({C0_MODES[modes][1]}, fixed), fixed tendon, dampratio position actuator + tendon motor"), nworld=nworld, restore=restore,
               note="Data.qpos and the Model fields " + ", ".join(sorted(C0_SYM_M)) + " symbolic (batch size 2 for " + ", ".join(C0_BATCH2) + ", 1 otherwise); float products / quotients / sqrt / sin / cos are shared uninterpreted functions; factor_m / solve_m = uninterpreted M^-1")
     ctx.assume("M^-1 is an uninterpreted function of (right-hand side, M of the world)", "MuJoCo's mj_setConst evaluates cameras and lights in FIXED mode at qpos0 (validated numerically in unit reference)")
     sym_m = lambda n: n[2:] in C0_SYM_M
@@ -1042,22 +1058,75 @@ def unit_host_const0(modes, fn_name, restore):
         for w, (rhs, Mw, out) in enumerate(rec):
           okM += [a == zr(b) for a, b in zip(Mw, Mc.d[0][w * Mc.shape[1] : (w + 1) * Mc.shape[1]])]
       ctx.prove(sess, "solve_m/at-qpos0-inertia", And(*okM), replay=rp, desc=f"{tag}: a solve_m call is not made with the inertia matrix of the qpos0 configuration")
+      # every solve_m call, in the documented order: nv dof calls (e_k), 6 per moving body (Jacobian rows), one per tendon (J_t), one per
+      # actuator (moment row).  The right-hand side handed to M^-1 must be EXACTLY that row's dense vector -- zero outside its support --
+      # for every index and every world: scratch vectors reused across loop iterations are part of the claim.
+      nb = int(mjm.nbody)
+      n_expected = nv + 6 * (nb - 1) + nt + nu
+      if len(stA.calls) != n_expected:
+        ctx.error(f"{tag}: {len(stA.calls)} solve_m calls, expected {n_expected} (nv + 6 (nbody-1) + ntendon + nu): call indexing of the harness does not apply")
+        return
+      # these claims compare terms of the run with themselves (no side axioms needed): a light session keeps mutants with stale
+      # (large) right-hand sides cheap
+      sessL = ctx.session([])
+      call_dof = lambda k: stA.calls[k]
+      call_body = lambda b, r_: stA.calls[nv + 6 * (b - 1) + r_]
+      call_ten = lambda t: stA.calls[nv + 6 * (nb - 1) + t]
+      call_act = lambda a: stA.calls[nv + 6 * (nb - 1) + nt + a]
+      eqv = lambda xs, ys: And(*[x == zr(y) for x, y in zip(xs, ys)])
+      for k in range(nv):
+        for w in range(nworld):
+          rhs, Mw, out = call_dof(k)[w]
+          ctx.prove(sessL, f"dof_invweight0[{k}]/rhs=e_{k}/world{w}", eqv(rhs, [1.0 if i == k else 0.0 for i in range(nv)]), replay=rp, desc=f"{tag}: the right-hand side of the M^-1 solve for dof {k} is not the unit vector e_{k} (world {w})")
+        if int(mjm.jnt_type[mjm.dof_jntid[k]]) >= 2:
+          for r in range(rows("dof_invweight0")):
+            ctx.prove(sessL, f"dof_invweight0[{r}][{k}]=(M^-1 e_k)_k", zr(A1("dof_invweight0", r, k)[0]) == call_dof(k)[r][2][k], replay=rp, desc=f"{tag}: dof_invweight0[{r},{k}] is not the k-th component of M^-1 e_k of world {r}")
+      # body rows: zero outside the dofs that move the body (the Jacobian values themselves are outside the claim)
+      for b in range(1, nb):
+        chain = set()
+        bb = b
+        while bb > 0:
+          chain |= set(range(int(mjm.body_dofadr[bb]), int(mjm.body_dofadr[bb]) + int(mjm.body_dofnum[bb]))) if mjm.body_dofnum[bb] else set()
+          bb = int(mjm.body_parentid[bb])
+        for r_ in range(6):
+          for w in range(nworld):
+            rhs, Mw, out = call_body(b, r_)[w]
+            ctx.prove(sessL, f"body_invweight0[{b}]/row{r_}/rhs-zero-outside-ancestor-dofs/world{w}", And(*[rhs[i] == 0 for i in range(nv) if i not in chain]) if len(chain) < nv else True, replay=rp,
+                      desc=f"{tag}: the Jacobian row {r_} of body {b} handed to M^-1 has a non-zero entry at a dof that does not move the body (stale scratch contents)")
+      # tendons: rhs = dense Jacobian row of the qpos0 state; invweight = J_t . (M^-1 J_t^T)
+      tj = daC["ten_J"].ref.cell
+      for t in range(nt):
+        adr, nnz = int(mjm.ten_J_rowadr[t]), int(mjm.ten_J_rownnz[t])
+        cols = [int(mjm.ten_J_colind[adr + k]) for k in range(nnz)]
+        for w in range(nworld):
+          rhs, Mw, out = call_ten(t)[w]
+          dense = [0.0] * nv
+          for k in range(nnz):
+            dense[cols[k]] = tj.d[0][tj.flat([w, adr + k])]
+          ctx.prove(sessL, f"tendon_invweight0[{t}]/rhs=J-row/world{w}", eqv(rhs, dense), replay=rp, desc=f"{tag}: the right-hand side of the M^-1 solve for tendon {t} (world {w}) is not the tendon's Jacobian row at qpos0 with zeros outside its support {cols} (entries of an earlier tendon left in the scratch vector)")
+        for r in range(rows("tendon_invweight0")):
+          rhs, Mw, out = call_ten(t)[r]
+          dot = 0.0
+          for k in range(nnz):
+            dot = UFO.a("+", dot, UFO.a("*", tj.d[0][tj.flat([r, adr + k])], out[cols[k]]))
+          ctx.prove(sessL, f"tendon_invweight0[{r}][{t}]=J.(M^-1 J^T)", zr(A1("tendon_invweight0", r, t)[0]) == zr(dot), replay=rp, desc=f"{tag}: tendon_invweight0[{r},{t}] is not J_t . (M^-1 J_t^T) of world {r}")
       # actuator_acc0 = | M^-1 moment_a | with the moment row of the qpos0 state
-      acc_calls = stA.calls[-nu:] if fn_name == "set_const_0" or True else []
       mo = daC["actuator_moment"].ref.cell
       rn, ra, ci = (np.array(daC[n_].ref.cell.d[0], dtype=int).reshape(daC[n_].ref.cell.shape) for n_ in ("moment_rownnz", "moment_rowadr", "moment_colind"))
       for a in range(nu):
-        for w in range(rows("actuator_acc0")):
-          rhs, Mw, out = _find_call(stA.calls, kind="last", index=nu - 1 - a)[w]
+        for w in range(nworld):
+          rhs, Mw, out = call_act(a)[w]
           dense = [0.0] * nv
           for k in range(int(rn[w, a])):
             dense[int(ci[w, ra[w, a] + k])] = mo.d[0][mo.flat([w, int(ra[w, a]) + k])]
-          ctx.prove(sess, f"actuator_acc0[{w}][{a}]/rhs=moment-row", And(*[x == zr(y) for x, y in zip(rhs, dense)]), replay=rp, desc=f"{tag}: the right-hand side of the M^-1 solve for actuator_acc0[{a}] is not the actuator's moment row at qpos0")
+          ctx.prove(sessL, f"actuator_acc0[{w}][{a}]/rhs=moment-row", eqv(rhs, dense), replay=rp, desc=f"{tag}: the right-hand side of the M^-1 solve for actuator_acc0[{a}] (world {w}) is not the actuator's moment row at qpos0 with zeros outside its support")
+          if w >= rows("actuator_acc0"):
+            continue
           ss = 0.0
           for i in range(nv):
             ss = UFO.a("+", ss, UFO.a("*", out[i], out[i]))
           got = A1("actuator_acc0", w, a)[0]
-          ctx.prove(sess, f"actuator_acc0[{w}][{a}]/norm", zr(got) == zr(sl.FU_sqrt(ss)) if hasattr(sl, "FU_sqrt") else _is_sqrt_of(got, ss), replay=rp, desc=f"{tag}: actuator_acc0[{w},{a}] is not the norm of M^-1 moment_a")
+          ctx.prove(sessL, f"actuator_acc0[{w}][{a}]/norm", _is_sqrt_of(got, ss), replay=rp, desc=f"{tag}: actuator_acc0[{w},{a}] is not the norm of M^-1 moment_a")
     if fn_name in ("set_const", "set_const_fixed"):
       mass, sub = maA["body_mass"].ref.cell, maA["body_subtreemass"].ref.cell
       nb = int(mjm.nbody)
@@ -1119,9 +1188,9 @@ def main(tier, seed, only=None):
   units = [("reference", unit_reference), ("kernel/subtreemass", unit_k_subtreemass), ("kernel/tendon_length0", unit_k_tendon_length0), unit_k_camlight("cam"), unit_k_camlight("light"), ("kernel/dof_M0", unit_k_dof_M0),
            ("kernel/meaninertia", unit_k_meaninertia), ("kernel/vectors", unit_k_vectors), ("kernel/finalize_invweight0", unit_k_finalize), ("kernel/resolve_dampratio", unit_k_dampratio), ("kernel/tendon_lengthspring", unit_k_lengthspring)]
   units += [unit_host_fixed("chain", 2), unit_host_fixed("fork", 2), unit_host_fixed("fork", 1)]
-  units += [unit_host_const0("fixed", "set_const_0", True), unit_host_const0("fixed", "set_const_0", False), unit_host_const0("tracking", "set_const_0", True), unit_host_const0("fixed", "set_const", True), unit_host_const0("tracking", "set_const", False)]
+  units += [unit_host_const0("fixed", "set_const_0", True), unit_host_const0("fixed", "set_const_0", False), unit_host_const0("tracking", "set_const_0", True), unit_host_const0("fixed", "set_const", True), unit_host_const0("tracking", "set_const", False), unit_host_const0("multi", "set_const_0", False)]
   if tier == "thorough":
-    units += [unit_host_fixed("chain", 1), unit_host_const0("tracking", "set_const_0", False), unit_host_const0("fixed", "set_const", False), unit_host_const0("tracking", "set_const", True)]
+    units += [unit_host_const0("multi", "set_const", True), unit_host_fixed("chain", 1), unit_host_const0("tracking", "set_const_0", False), unit_host_const0("fixed", "set_const", False), unit_host_const0("tracking", "set_const", True)]
   if only:
     units = [u for u in units if any(o in u[0] for o in only)]
   return report.run_check(PID, units, tier, seed)
